@@ -34,7 +34,7 @@ RULE = ("cases = (object, entry point, arguments, PRINT_* settings, terminal wid
         "holds a special cell (non-ASCII, line break, >= 50 characters, non-finite/tiny/huge float, object cell) "
         "or the configuration departs from the defaults")
 ASSUMPTIONS = [
-    "values outside the rendering alphabets (e.g. control characters other than a line feed, column names that contain line breaks) and objects larger than 3 x 3 are not explored",
+    "values outside the rendering alphabets (e.g. control characters other than the line breaks \\n, \\r\\n, \\r, \\x0b and U+2028, column names that contain line breaks) and objects larger than 3 x 3 are not explored",
     "max_rows=0 is unspecified (DESIGN 3.5) and excluded; max_elements=0 and max_items=0 are included",
     "layout parsing: blocks of columns are runs of >= 2 lines separated by lines that are exactly '' or '.'; the first line of a block holds names, the second dtype labels, lines made only of rule characters are not data rows, one-line runs are notes",
     "columns are expected to be shown in frame order (names and labels are searched as an in-order, non-overlapping embedding)",
@@ -68,8 +68,8 @@ ALPHA = {
            "thorough": [0, -1, 1234567, 2**53 + 1, -2**63, 1000]},
     "u1": {"quick": [0, 200], "thorough": [0, 200]},
     "b1": {"quick": [False, True], "thorough": [False, True]},
-    "str": {"quick": [None, "a", "日本", E_ACUTE, "l1\nl2", LONG, 'q"r', "l1\n"],
-            "thorough": [None, "a", "日本", E_ACUTE, "l1\nl2", LONG, "l1\n", WIDE_LONG, "\nl2", "l1\r\nl2", 'q"r', " "]},
+    "str": {"quick": [None, "a", "日本", E_ACUTE, "l1\nl2", LONG, 'q"r', "l1\n", "l1\r\nl2", "l1\u2028l2"],
+            "thorough": [None, "a", "日本", E_ACUTE, "l1\nl2", LONG, "l1\n", WIDE_LONG, "\nl2", "l1\r\nl2", 'q"r', " ", "l1\u2028l2", "l1\x0bl2", "l1\rl2"]},
     "U": {"quick": [None, "a", "日本", "l1\nl2"], "thorough": [None, "a", "日本", "l1\nl2", LONG]},
     "D": {"quick": [None, "1970-01-01", "9999-12-31", "0001-01-01"],
           "thorough": [None, "1970-01-01", "9999-12-31", "0001-01-01", "2020-02-29"]},
